@@ -279,12 +279,23 @@ func zzC04PagCopyClearReweight(k int) {
 			zzvAssume(zzvAnd(i >= (s.minPageIndex-2)<<5, i < (s.minPageIndex+10)<<5))
 		}
 		c := zzW("c")
-		if zzvChoose("mutate", 2) == 0 {
+		switch zzvChoose("mutate", 3) {
+		case 0:
 			s.AddWithCount(i, c)
 			zzvAssert("copy-independent-of-original", zzAbsPag(cp, p) == zzAbsPag(pre, p))
-		} else {
+		case 1:
 			cp.AddWithCount(i, c)
 			zzvAssert("original-independent-of-copy", zzAbsPag(s, p) == zzAbsPag(pre, p))
+		case 2:
+			// both lines reuse their memory (e.g. pages kept by an earlier Clear): each sees only its own addition
+			d := zzWPos("d")
+			j := i + []int{0, 1, 40}[zzvChoose("secondIndex", 3)]
+			zzvAssume(zzvAnd(j >= -(1<<31), j < 1<<31))
+			s.AddWithCount(i, c)
+			cp.AddWithCount(j, d)
+			zzvAssert("original-sees-only-its-own-addition", zzAbsPag(s, p) == zzAbsPag(pre, p)+zzvIteF64(p == i, c, 0))
+			zzvAssert("copy-sees-only-its-own-addition", zzAbsPag(cp, p) == zzAbsPag(pre, p)+zzvIteF64(p == j, d, 0))
+			zzvAssert("both-keep-the-invariant", zzvAnd(zzInvPag(s), zzInvPag(cp)))
 		}
 	case 1:
 		s.Clear()
